@@ -70,6 +70,16 @@ class Stubs(object):
     def n_parse(self, it, args, kwargs):
         if self.syntax_error:
             raise InterpRaise('SyntaxError', self.syntax_error['msg'], None, dict(self.syntax_error))
+        if args and isinstance(args[0], str) and any(l.lstrip().startswith('from ') and ' import' not in l for l in args[0].splitlines()):
+            # a line that starts with `from` and has no `import`: whether the (marked) text parses is decided by the real parser - a
+            # continuation line of `raise ... from` / `yield from` does, a half-typed import does not; the tree itself stays opaque
+            import ast as _ast
+            try:
+                _ast.parse(args[0])
+            except SyntaxError as e:
+                raise InterpRaise('SyntaxError', e.msg, None, {'msg': e.msg, 'lineno': e.lineno, 'offset': e.offset})
+            except ValueError as e:
+                raise InterpRaise('ValueError', str(e))
         return Unknown('tree')
 
     def n_extract_scope(self, args):
@@ -610,6 +620,19 @@ def _assist_model(repo, order='fwd'):
         rec('prefix', 'prefix of import line %r' % left, not exc and pair(r) and r[0] == want,
             'on the import line %r the prefix must be %r, got %s' % (left, want, exc or (r[0] if pair(r) else r)),
             'prefix(%r) = %r' % (left, want))
+    # a line that starts with `from` need not be an import: the continuation line of `raise ... from` / `yield from`
+    asked_c = []
+    for text, pos in (('def f(err):\n    raise ValueError(1) \\\n        from er\n', (3, 15)),
+                      ('def g(gen_a):\n    x = (yield\n        from gen_\n    )\n', (3, 17))):
+        st.reset()
+        st.packages = {'': ['pkg_x'], 'er': ['sub'], 'gen_': ['sub']}
+        ident = text.splitlines()[pos[0] - 1][:pos[1]].split()[-1]
+        st.marked_name = st.name_node(ident + M, {'err': 1, 'gen_a': 2, 'other': 3}, asked_c)
+        r, exc = st.assist(text, pos)
+        rec('branch', 'a continuation line starting with `from` is not an import line (%r)' % text.splitlines()[pos[0] - 1].strip(),
+            not exc and pair(r) and r[0] == ident and set(r[1]) == {'err', 'gen_a', 'other'},
+            'with the cursor at the end of the last line of %r (the statement parses: it is `raise ... from` / `yield from`, not an import) the '
+            'visible names must be proposed with the prefix %r; got %s' % (text, ident, exc or (r,)), 'raise/yield ... from <name>')
     st.reset()
     st.packages = {'pkg': ['zz', 'aa', 'zz2']}
     r, exc = st.assist('from pkg.z', (1, 10))
@@ -1322,6 +1345,14 @@ def _server_model(repo):
     rec('error', 'a failing handler is reported as (class name, message), False', len(r) == 2 and r[0] == (('ValueError', 'boom message'), False)
         and r[1][1] is True, 'a handler raising ValueError("boom message") must be answered by ((ValueError, boom message), False) and '
         'the next request served normally; sent %s (%s)' % (r, how), 'handler raises -> ((class, message), False), loop continues')
+    # code run by an eval request may call sys.exit(): a request that raises must not end the server, whatever it raises
+    def _exit(it_, a, k):
+        raise InterpRaise('SystemExit', '3')
+    srv, cs, how = serve([Packed(('boom', (), {})), Packed(('ping', (), {})), CLOSE], dict(H, boom=Native('boom', _exit)))
+    r = replies(cs)
+    rec('error', 'a handler that raises SystemExit is an error reply, not the end of the server', len(r) == 2 and r[0][1] is False
+        and r[1][1] is True, 'a request whose handler raises SystemExit (an eval request running sys.exit()) must be answered by an error '
+        'reply and the next request served; sent %s (%s)' % (r, how), 'SystemExit in a handler -> error reply, loop continues')
     srv, cs, how = serve([Packed(('no_such_method', (), {})), Packed(('ping', (), {})), CLOSE], H)
     r = replies(cs)
     rec('error', 'an unknown method is an error reply, not a crash', len(r) == 2 and r[0][1] is False and r[0][0][0] == 'AttributeError'
@@ -1593,7 +1624,11 @@ def _client_model(repo):
             if oc is False:
                 raise InterpRaise('OSError', 'launch failed', None, {'errno': 11})
             state['script'] = list(scripts[oc])
-            return st.obj(None, 'server process %d' % state['launches'])
+            pr = {'stopped': False}
+            state.setdefault('procs', []).append(pr)
+            stop = Native('stop', lambda i2, a2, k2, _p=pr: _p.__setitem__('stopped', True))
+            return st.obj(None, 'server process %d' % state['launches'], terminate=stop, kill=stop,
+                          wait=Native('wait', lambda i2, a2, k2: 0), poll=Native('poll', lambda i2, a2, k2, _p=pr: 0 if _p['stopped'] else None))
 
         def Client(it_, a, k):
             step = state['script'].pop(0) if state['script'] else 'ENOENT'
@@ -1667,6 +1702,10 @@ def _client_model(repo):
     rec('launch', 'a server that never comes up ends in the launch time-out', exc is not None and exc.exc_name == 'Exception'
         and stt['launches'] == 1 and stt['clock'] > 5, 'when the server never accepts, the call must give up after the time-out with the '
         'launch error (not spin for ever, not launch again); launches %d, clock %.1f, %s' % (stt['launches'], stt['clock'], exc or r))
+    rec('launch', 'a server that never comes up is not left behind', bool(stt.get('procs')) and all(p['stopped'] for p in stt['procs']),
+        'when the client gives up waiting for the server it launched, that process must be stopped: it would sit in accept() for ever, '
+        'and the next call launches a second server next to it; processes launched %d, stopped %d'
+        % (len(stt.get('procs', [])), sum(1 for p in stt.get('procs', []) if p['stopped'])), 'launch time-out -> the child is terminated')
     env, stt = launcher([True])
     invoke(env, 'prepare', [])
     invoke(env, 'prepare', [])
@@ -1679,6 +1718,30 @@ def _client_model(repo):
     invoke(env, 'prepare', [])
     rec('launch', 'prepare() with a live connection does nothing', len(stt['threads']) == 1 and stt['launches'] == 1,
         'once connected, prepare() must not start another server; starter threads %d, launches %d' % (len(stt['threads']), stt['launches']))
+    # close() while the background start is still in flight: the session that start creates must be ended too
+    env, stt = launcher([True, True])
+    invoke(env, 'prepare', [])
+    r, exc = invoke(env, 'close', [])
+    for th in stt['threads']:
+        invoke(th, 'join', [])                   # whatever is left of the starter finishes now
+    sent = [p.obj if isinstance(p, Packed) else p for cs_ in stt['conns'] for p in cs_['sent']]
+    alive = [cs_ for cs_ in stt['conns'] if not cs_['closed']]
+    rec('close', 'close() during a background start ends the session that start creates', exc is None and not alive
+        and 'conn' not in env.attrs and (stt['launches'] == 0 or any(isinstance(x, tuple) and x and x[0] == 'close' for x in sent)),
+        'prepare() has started the starter thread, close() is called before the starter has connected, then the starter finishes: '
+        'launches %d, connections left open %d, close requests sent %s, conn kept: %s %s - close() must end the session (wait for the '
+        'start it overlaps, or keep it from happening), otherwise the server is up after close() returned and nobody will stop it'
+        % (stt['launches'], len(alive), [x for x in sent if isinstance(x, tuple) and x and x[0] == 'close'], 'conn' in env.attrs, exc or ''),
+        'close() synchronises with the starter')
+    # close() when the server is already gone: the client must come back to the unconnected state
+    conn, cs = st.conn([], send_fails_on=(1,))
+    env = it.call(env_cls, [], {})
+    env.attrs['conn'] = conn
+    r, exc = invoke(env, 'close', [])
+    rec('close', 'close() with a dead server leaves the client reusable', exc is None and 'conn' not in env.attrs and cs['closed'] == 1,
+        'the server has died (sending raises BrokenPipeError): close() must still drop the connection so that the next call launches a new '
+        'server; it %s, connection closed %d times, conn kept: %s' % ('raised %s' % exc if exc else 'returned', cs['closed'], 'conn' in env.attrs),
+        'close() after the server died')
     env, stt = launcher([True, True])
     invoke(env, '_call', ['ping'])
     invoke(env, 'close', [])
